@@ -242,6 +242,17 @@ def check(ctx):
     last = [r for r in returns(mup) if isinstance(r.value, ast.Set)]
     ok = ok and len(last) == 1 and dominates(mup, fi[0], last[0])
     ctx.ob("CLAIM.indexed-merge.empty", mup, "fully-indexed merge (both sides on the index, aligned on divisions): the claim is the empty set, decided before {left_on, right_on} is built", ok, "" if ok else "{None} reads as 'hash-partitioned by the index': a following index merge skips its shuffle and matching index values sit in different partitions (duplicated / unmatched rows)")
+    # ---------------- join of a LIST of frames: the other frames are combined with an OUTER join, whatever `how` is
+    jr = ctx.model.module("dask/dataframe/dask_expr/_merge.py").func("JoinRecursive._recursive_join")
+    inner = [c for c in calls(jr, "Merge") if kwarg(c, "left_index") is not None and eqv(c.args[0], "frames[0]") and eqv(c.args[1], "frames[1]")]
+    ok = len(inner) == 1 and kwarg(inner[0], "how") is not None and eqv(kwarg(inner[0], "how"), "'outer'")
+    ctx.ob("ALG.join-list.pairwise-outer", jr, "_recursive_join merges a pair of the *other* frames with how='outer'; only the final merge with the caller's frame uses self.how", ok, "" if ok else "with how='left' keys that occur only in a later frame are dropped before they can match the caller's rows")
+    # ---------------- merge_asof helpers: head keeps the LEFT (earlier) non-empty value, tail the right one
+    mra = ctx.model.module("dask/dataframe/dask_expr/_merge_asof.py")
+    mh = mra.func("most_recent_head")
+    g_ = [n for n in walk_no_nested(mh) if isinstance(n, ast.If)]
+    ok = len(g_) == 1 and eqv(g_[0].test, "len(left.index) == 0") and any(eqv(r.value, "right") for r in returns(g_[0])) and any(eqv(r.value, "left.head(1)") for r in returns(mh))
+    ctx.ob("SIB.mirror.asof-most-recent", mh, "most_recent_head(left, right): right if left is empty else left.head(1)", ok, "" if ok else "mirroring the guard drops the first row of the next non-empty partition across an empty one: forward/nearest matches beyond it are lost")
 
 
 VARIANTS = [
